@@ -75,6 +75,6 @@ func vfHarnessC14Iff(n int, selfLoops bool, danglingMode int) {
 	vfReach("end")
 }
 
-func VerifHarness_C14_iff3()    { vfHarnessC14Iff(3, true, 1) }
-func VerifHarness_C14_iff4()    { vfHarnessC14Iff(4, true, 0) }
-func VerifHarness_C14_iff4d()   { vfHarnessC14Iff(4, false, 1) }
+func VerifHarness_C14_iff3()  { vfHarnessC14Iff(3, true, 1) }
+func VerifHarness_C14_iff4()  { vfHarnessC14Iff(4, true, 0) }
+func VerifHarness_C14_iff4d() { vfHarnessC14Iff(4, false, 1) }
